@@ -5,6 +5,17 @@ here = os.path.dirname(os.path.dirname(os.path.abspath(__file__)))
 
 # id -> (technique, level text, level note, design ref)
 CHECKS = {
+    "C10": (
+        "Hypothesis RuleBasedStateMachine (model-based stateful testing) + exhaustive enumeration of short operation sequences; full-snapshot invariant after every step",
+        "Histories over update (five strategies; list / generator / text-path input), delete (ids, Features, missing), add_relation, reopen, empty "
+        "update and a faulty update whose source raises after k items are applied to a real file database and to a reference model (MergeModel + set "
+        "arithmetic for relations incl. the level-2 closure); after every step the features, relations, directives, dialect and id counters must "
+        "equal the model, auto ids never recur, and with make_backup the .bak file must be the complete pre-operation database - also when the "
+        "operation then fails. All sequences up to depth 3 (quick) / 4 (thorough) over a fixed 8-operation alphabet are enumerated as well.",
+        "Faults are exceptions raised by the feature source (no process/disk crash); after a raising update only the .bak promise is checked; "
+        "replace updates that change Parent are excluded (known finding D11).",
+        "DESIGN.md section 4 C10",
+    ),
     "C19": (
         "Hypothesis-generated (old db, new input, force) triples and read-call sequences; differential snapshot oracle + SQL statement tracing from outside",
         "create_db onto an existing file must raise without force and leave the snapshot unchanged, and with force must equal an import into a fresh "
